@@ -12,7 +12,9 @@ EXPLANATION = (
     'counter increment, nobody else applies the operator (one tabulated exception named by the property), the counter '
     'returned by num_operations() is the one passed down and zeroed by init(); restart() runs at most once per iteration '
     'of a loop bounded by maxit; constructors start as NotComputed with an empty flag array; the rule arguments reach '
-    'their consumers unchanged. Ordering by key is C18.')
+    'their consumers unchanged. On every normal path the final-sort member re-arranges the result arrays (a skipping return is '
+    'accepted only in the cached-order idiom, and then every writer of the values in the class hierarchy must update the order tag). '
+    'Ordering by key is C18.')
 ASSUMPTIONS = ['Eigen kernels and std::sort are correct', 'instantiations listed in drivers/ are representative of every OpType']
 
 
